@@ -4,7 +4,7 @@
    duplicate-free suffix-ordered n-grams with adjusted count and pruning mark (KNSpec.v); kn_spec = table followed by
    discounts, uninterpolated probabilities, gammas and interpolation over exact rationals. *)
 From Coq Require Import List NArith ZArith QArith Bool.
-From Kenlm Require Import C05.KNDefs C05.KNSpec C05.KNModel C05.KNWitness C05.KNLex C05.KNAdjustD C05.KNAdjustF C05.KNNgramSet.
+From Kenlm Require Import C05.KNDefs C05.KNSpec C05.KNModel C05.KNWitness C05.KNLex C05.KNAdjustD C05.KNAdjustF C05.KNNgramSet C06.GoodTable C05.KNPipeline.
 Import ListNotations.
 
 (* F1, the unrepaired final flush (fix_stat = false): there is a corpus on which the counts-of-counts collected by the
@@ -32,6 +32,16 @@ Proof. exact adjust_counts_refines_spec. Qed.
 Theorem C05_impl_refines_spec : forall (c : corpus) (n : nat) (o : options),
   (1 <= n)%nat -> (forall k, (thr o k < MAX64)%N) -> kn_impl c n o = kn_spec c n o.
 Proof. exact impl_refines_spec. Qed.
+
+(* The same with the interpolation stage modelled as the code computes it: bottom up, the probability of an n-gram from
+   the stored uninterpolated probability / interpolation weight (MergeRight) and the probability of its SUFFIX looked up
+   one order lower (Callback::Enter; JointOrder throws "n-gram without matching suffix" when it is missing).  For every
+   corpus with at least one line, every order and every legal option set the pipeline never misses a suffix and writes
+   exactly the specification's model (or refuses where the specification has no discounts). *)
+Theorem C05_pipeline_refines_spec : forall (c : corpus) (n : nat) (o : options),
+  c <> [] -> (1 <= n)%nat -> thr_mono o n -> (forall k, (thr o k < MAX64)%N) ->
+  kn_pipeline c n o = lift_result (kn_spec c n o).
+Proof. exact pipeline_refines_spec. Qed.
 
 (* The n-grams of order k are exactly the windows of the delimited sentences, plus <unk> and <s> among the unigrams ... *)
 Theorem C05_ngram_set : forall (c : corpus) k g, In g (grams (events c) k) <->
